@@ -182,7 +182,8 @@ def _run(case, crash, world):
     saved_filters = warnings.filters[:]
     saved_po = np.get_printoptions()
     try:
-        np.seterr(divide="ignore", under="warn", over="warn", invalid="warn")
+        over0, invalid0 = case.get("err0", ["warn", "warn"])     # the session's own settings: any mix of warn / ignore
+        np.seterr(divide="ignore", under="warn", over=over0, invalid=invalid0)
         warnings.filterwarnings("ignore", message="verif marker filter")
         np.set_printoptions(precision=5)
         w = _build(case)
@@ -268,6 +269,7 @@ def nontrivial(case, res):
 
 
 def stats(case, res, st):
+    st["err0_%s_%s" % tuple(case.get("err0", ["warn", "warn"]))] += 1
     st["entry_" + case["entry"]] += 1
     st["runs"] += len(res["runs"])
     st["evals_base"] += res["n"]
@@ -301,4 +303,5 @@ def gen(rng, tier):
                 if analytic:
                     p["dist"] = None
                 yield {"entry": entry, "mode": mode, "analytic": analytic, "params": p,
+                       "err0": rng.choice([["warn", "warn"], ["warn", "warn"], ["ignore", "warn"], ["warn", "ignore"], ["ignore", "ignore"]]),
                        "ks": [rng.randint(0, 1000) for _i in range(3)] if q else "all"}
